@@ -126,7 +126,9 @@ def add_room(
         solution = pfba(model)
 
     prob = model.problem
-    variable = prob.Variable("room_old_objective", ub=solution.objective_value)
+    # Like `moma_old_objective` this variable only records the value of the old
+    # objective; the ROOM formulation does not restrict it.
+    variable = prob.Variable("room_old_objective")
     constraint = prob.Constraint(
         model.solver.objective.expression - variable,
         ub=0.0,
